@@ -63,8 +63,25 @@ BINDS = {
     "b6": ("Y=f(Z)", (Y, ("f", Z))),
     "b7": ("Z=a", (Z, "a")),
 }
-PORDER = sorted(POSTS)
+PORDER = sorted(POSTS)      # the general family: 3 dif, 2 freeze, 4 when
 BORDER = sorted(BINDS)
+
+# dif family: several dif/2 goals whose stored goals (L \== R) are unifiable but not identical
+# (dif.pl removes and re-posts stored goals; remove_goal/3 must compare them with ==)
+POSTS.update({
+    "d4": ("dif", "dif(X-Y,a-b)", (("-", X, Y), ("-", "a", "b"))),
+    "d5": ("dif", "dif(X-Z,a-b)", (("-", X, Z), ("-", "a", "b"))),
+    "d6": ("dif", "dif(f(X,Z),f(a,b))", (("f", X, Z), ("f", "a", "b"))),
+    "d7": ("dif", "dif(g(X,Y,Z),g(a,b,c))", (("g", X, Y, Z), ("g", "a", "b", "c"))),
+    "d8": ("dif", "dif(Y-Z,b-b)", (("-", Y, Z), ("-", "b", "b"))),
+})
+BINDS.update({
+    "c1": ("Y=c", (Y, "c")),
+    "c2": ("Z=d", (Z, "d")),
+    "c3": ("Z=b", (Z, "b")),
+})
+DIF_POSTS = ["d1", "d2", "d3", "d4", "d5", "d6", "d7", "d8"]
+DIF_BINDS = ["b1", "b2", "b4", "b5", "b7", "c1", "c2", "c3"]   # X=a X=b Y=b X=Y Z=a Y=c Z=d Z=b
 UNIVERSE = ["a", "b", ("f", "a")]
 
 HELPERS = r"""
@@ -104,7 +121,8 @@ c26_call_all([G|Gs]) :- call(G), c26_call_all(Gs).
 def bound_text(tier):
     nb = 3 if tier == "thorough" else 2
     return ("all permutations of all multisets of 1..2 posts (9 kinds) and 0..%d bindings (7 kinds)" % nb +
-            ("; 3 posts and 0..2 bindings" if tier == "thorough" else ""))
+            ("; 3 posts and 0..2 bindings" if tier == "thorough" else "") +
+            "; dif family: pairs/triples of 8 dif posts with 8 bindings")
 
 
 # ---------------------------------------------------------------------------
@@ -118,6 +136,27 @@ def multisets(tier):
             for k in range(0, (2 if np_ == 3 else nb) + 1):
                 for bs in itertools.combinations_with_replacement(BORDER, k):
                     out.append(list(ps) + list(bs))
+    # dif family: pairs with <= 2 bindings, triples with <= 1 binding (thorough: triples of the five
+    # structured posts with <= 2 bindings)
+    seen = {tuple(m) for m in out}
+
+    def add(ps, bs):
+        m = list(ps) + list(bs)
+        if tuple(m) not in seen:
+            seen.add(tuple(m))
+            out.append(m)
+    for ps in itertools.combinations_with_replacement(DIF_POSTS, 2):
+        for k in range(0, 3):
+            for bs in itertools.combinations_with_replacement(DIF_BINDS, k):
+                add(ps, bs)
+    for ps in itertools.combinations_with_replacement(DIF_POSTS, 3):
+        for k in range(0, 2):
+            for bs in itertools.combinations_with_replacement(DIF_BINDS, k):
+                add(ps, bs)
+    if tier == "thorough":
+        for ps in itertools.combinations(["d3", "d4", "d5", "d6", "d7", "d8"], 3):
+            for bs in itertools.combinations_with_replacement(DIF_BINDS, 2):
+                add(ps, bs)
     return out
 
 
@@ -416,8 +455,9 @@ def terms_formal(e):
 
 def touches(seq):
     """non-trivial: some post precedes a binding that shares a variable with it"""
-    pv = {"d1": "XY", "d2": "X", "d3": "XY", "f1": "X", "f2": "XY", "w1": "XY", "w2": "XY", "w3": "X", "w4": "XY"}
-    bv = {"b1": "X", "b2": "X", "b3": "Y", "b4": "Y", "b5": "XY", "b6": "YZ", "b7": "Z"}
+    pv = {"d1": "XY", "d2": "X", "d3": "XY", "f1": "X", "f2": "XY", "w1": "XY", "w2": "XY", "w3": "X", "w4": "XY",
+          "d4": "XY", "d5": "XZ", "d6": "XZ", "d7": "XYZ", "d8": "YZ"}
+    bv = {"b1": "X", "b2": "X", "b3": "Y", "b4": "Y", "b5": "XY", "b6": "YZ", "b7": "Z", "c1": "Y", "c2": "Z", "c3": "Z"}
     seen = set()
     zlink = False
     for e in seq:
